@@ -1236,6 +1236,11 @@ fn c06_gen_hostile(seed: u64, run: u64, thorough: bool, flood: bool) -> Plan {
     }
     // every eighth: complete one-fragment packets behind a hole, far beyond the allocation
     let singles = !flood && run % 8 == 5;
+    // ... half of them against an application that steps without reading most of the time, so
+    // that what is accepted stays held (and counted) until it is read
+    if singles && run % 16 == 5 {
+        plan.params.insert("hc_lazy_reader_permille".into(), [300.0, 700.0, 950.0][(run / 16 % 3) as usize]);
+    }
     plan.params.insert("hostile_focus".into(), if flood { 2.0 } else if tail_first { 3.0 } else if singles { 5.0 } else { 1.0 });
     plan.params.insert("hostile_max".into(), if big_bursts { 500_000.0 } else if flood { 150_000.0 } else if singles { r.range(1000, 6000) as f64 } else { r.range(100, 3000) as f64 });
     plan.end_us = horizon;
